@@ -266,7 +266,12 @@ def microdvd_writer(ctx, report, ev):
     report.check("_microtoframes(" in t1 and "_microtoframes(" in t2, "R-EMIT", rl,
                  "both frame fields go through the microseconds->frames conversion", [t1[:80], t2[:80]], "4")
     top = unwrap_floor(outs[0].value)[1]
-    report.check(top, "R-INT-FIELD", fn, "frame fields are integers (int() outermost)", None, "2")
+    # `//` keeps the operand's type: caption times may be floats (SCC reader, adjust_caption_timing), so only an
+    # explicit integer conversion makes the printed field an integer
+    conv = isinstance(ret, ast.Call) and call_name(ret) in ("int", "math.floor", "math.trunc", "floor", "trunc")
+    report.check(top and conv, "R-INT-FIELD", fn, "frame fields are integers (int() outermost)",
+                 {"returned": short(ret), "why": None if conv else "float caption times give '{37.0}{62.0}': floor division "
+                                                                   "of a float is a float"}, "2")
 
 
 from ..core.astutil import resolve_local  # noqa: E402  (shared def-use normaliser)
